@@ -187,12 +187,15 @@ def _get(t, p):
 
 # ---------------------------------------------------------------- implementation runner
 
-def build(x, cls):
-    """nested dicts of the given class (0 dict, 1 Dict, 2 dictattr); leaves untouched"""
+def build(x, cls, mixed=False, root=True):
+    """nested dicts of the given class (0 dict, 1 Dict, 2 dictattr); leaves untouched.  With `mixed` (the tree_update runner and law, on
+    every third case) a Dict / dictattr tree is built with a ROOT of that class over PLAIN dict branches (a tree need not be of one
+    class throughout: `Dict(a = 1, b = dict(c = 2))` is the common case), so that class-directed copying of branches is exercised:
+    "neither t nor u, at any depth, is modified" quantifies over such trees too (seeded change C15-r2)"""
     from pyg_base import Dict, dictattr
-    c = {0: dict, 1: Dict, 2: dictattr}[cls]
+    c = {0: dict, 1: Dict, 2: dictattr}[cls if (root or not mixed) else 0]
     if isinstance(x, dict):
-        return c({k: build(v, cls) for k, v in x.items()})
+        return c({k: build(v, cls, mixed, False) for k, v in x.items()})
     return x
 
 
@@ -204,8 +207,9 @@ def snapshot(x):
 
 
 def run_line(state, sx):
-    import pyg_base
+    import pyg_base, zlib
     from pyg_base import tree_items, tree_keys, tree_values, items_to_tree, tree_update, tree_getitem, Dict
+    mixed = zlib.crc32(repr(sx).encode()) % 3 == 0
     op, args = sx[1], sx[2:]
     if op in ('items', 'keys', 'values'):
         t = build(proto.dec(args[0]), int(args[1]) if len(args) > 1 else 0)
@@ -247,7 +251,7 @@ def run_line(state, sx):
     if op in ('update', 'updateh'):       # updateh: same call; the model side runs the heap machine
         cls = int(args[3]) if len(args) > 3 else 0
         ucls = int(args[4]) if len(args) > 4 else cls
-        t, u, ig = build(proto.dec(args[0]), cls), build(proto.dec(args[1]), ucls), proto.dec(args[2])
+        t, u, ig = build(proto.dec(args[0]), cls, mixed), build(proto.dec(args[1]), ucls, mixed), proto.dec(args[2])
         st, su = snapshot(t), snapshot(u)
         res = tree_update(t, u, ignore=ig) if ig else tree_update(t, u)
         if snapshot(t) != st:
@@ -364,7 +368,8 @@ def laws(rng, tier, ctx):
         r = rng.random()
         u0 = t0 if r < 0.1 else ({} if r < 0.15 else rand_update(rng, t0))
         ig = rng.choice([[], [], [None], [None, 'x']])
-        u = build(u0, cls)
+        mixed = rng.random() < 0.34
+        t, u = build(t0, cls, mixed), build(u0, cls, mixed)
         st, su = snapshot(t), snapshot(u)
         case = dict(tag='law-update', lines=['(tree update %s %s %s %d)' % (T, enc(u0), enc(ig), cls)])
         count += 3
@@ -376,7 +381,7 @@ def laws(rng, tier, ctx):
             continue
         if snapshot(t) != st or snapshot(u) != su:
             yield Finding('violation', case, 'tree_update modified an operand: t=%s u=%s' % (enc(_plain(t)), enc(_plain(u))))
-            t, u = build(t0, cls), build(u0, cls)
+            t, u = build(t0, cls, mixed), build(u0, cls, mixed)
         want = ref_merge(t0, u0, ig)
         if _plain(res) != want:
             yield Finding('violation', case, 'tree_update = %s, recursive merge = %s' % (enc(_plain(res)), enc(want)))
